@@ -250,3 +250,20 @@ pub fn explore_decode<S, T>(
         },
     );
 }
+
+
+/// A loopback port with nothing behind it. Taken from below the kernel's ephemeral range (every listener of this harness
+/// binds port 0, i.e. inside that range), so that no concurrently running worker can be handed the same number between
+/// the moment it is probed here and the moment the client under test talks to it.
+pub fn closed_port(ip: std::net::IpAddr, tcp: bool) -> Option<u16> {
+    use std::sync::atomic::{AtomicU32, Ordering};
+    static NEXT: AtomicU32 = AtomicU32::new(0);
+    let base = 20_000u32 + (std::process::id() % 97) * 113;
+    for _ in 0..2000 {
+        let k = NEXT.fetch_add(1, Ordering::Relaxed);
+        let port = (20_000 + (base - 20_000 + k * 7) % 11_000) as u16;
+        let free = if tcp { std::net::TcpListener::bind((ip, port)).is_ok() } else { std::net::UdpSocket::bind((ip, port)).is_ok() };
+        if free { return Some(port); }
+    }
+    None
+}
